@@ -549,6 +549,19 @@ let exec (s : t) (verbose : bool) (f : string array) (obs : string option) : str
       step (batch_delete (get_db s) (get_batch s) k)
     done;
     (match !err with None -> "ok" | Some e -> "err " ^ eerr_name e) ^ events_str !all
+  | "bputfail" ->
+    (* a Batch.Put during which the operating system refuses the first write (the write of an overflow flush).  Whether a
+       write happened at all is observed; when it did, the model must agree that a flush was due *)
+    let o = match obs with Some o -> obs_head o | None -> "ok" in
+    if String.length o >= 6 && String.sub o 0 6 = "err io" then
+      (match batch_put_refused (get_db s) (get_batch s) (tok_bytes f.(2)) (tok_bytes f.(3)) with
+       | Some (d, _) -> s.db <- Some d; "err io"
+       | None -> "ok # the model sees no flush due")
+    else begin
+      let (((d, b), e), _) = batch_put (get_db s) (get_batch s) (tok_bytes f.(2)) (tok_bytes f.(3)) in
+      s.db <- Some d; s.batch <- Some b;
+      (match e with None -> "ok" | Some e -> "err " ^ eerr_name e)
+    end
   | "bgetrace" ->
     (* n Puts of one key through the batch, the values alternating between len bytes 'A' and len bytes 'B' (a reader races
        with them in the implementation; reads change nothing) *)
